@@ -23,7 +23,7 @@ fn describe() -> Describe {
         id: "C18",
         level: "model_checking",
         rule: "every function on <=3 blocks (all 2^(n*n) edge sets incl. self-loops and multiple out-edges) x every entry x block \
-               sizes {0,1,2, 2-with-index-gap}^n x address patterns {unique, one per block, none} x function placed first or second \
+               sizes {0,1,2, 2 with indices [1,2], 2 with indices [0,2]}^n x address patterns {unique, one per block, none} x function placed first or second \
                in a two-function program; ALL locations and ALL addresses 0..max+1 are checked: forward/backward converse, \
                locations() lists each instruction/empty block/edge exactly once, forward closure from the entry equals the \
                definitional location set, owned<->borrowed round trip on the program and on a clone, migrate, from_address. \
@@ -38,7 +38,7 @@ struct Spec {
     n: usize,
     edges: u32, // bit i*n+j : edge i -> j
     entry: usize,
-    sizes: Vec<u8>, // 0,1,2,3 (3 = two instructions with an index gap)
+    sizes: Vec<u8>, // 0,1,2; 3 = two instructions with indices [1,2]; 4 = two instructions with indices [0,2]
     addr: u8,       // 0 unique, 1 per block, 2 none
     second: bool,   // function under test is function index 1
 }
@@ -76,6 +76,9 @@ impl Spec {
             }
             if self.sizes[b] == 3 {
                 blk.remove_instruction(0).unwrap();
+            }
+            if self.sizes[b] == 4 {
+                blk.remove_instruction(1).unwrap();
             }
             for ins in blk.instructions_mut() {
                 match self.addr {
@@ -338,10 +341,10 @@ fn run(ctx: &Ctx) -> Acc {
                 if !ctx.mine(unit) {
                     continue;
                 }
-                let nsz = 4usize.pow(n as u32);
+                let nsz = 5usize.pow(n as u32);
                 for sz in 0..nsz {
-                    let sizes: Vec<u8> = (0..n).map(|b| ((sz >> (2 * b)) & 3) as u8).collect();
-                    if !ctx.tier.thorough() && n == 3 && sizes.iter().filter(|s| **s == 3).count() > 1 {
+                    let sizes: Vec<u8> = (0..n).map(|b| ((sz / 5usize.pow(b as u32)) % 5) as u8).collect();
+                    if !ctx.tier.thorough() && n == 3 && sizes.iter().filter(|s| **s >= 3).count() > 1 {
                         continue;
                     }
                     for addr in 0..3u8 {
